@@ -245,7 +245,7 @@ Theorem C06_subspace :
   forall ks, in_shape ks (map (@length nat) pos) ->
     nth_error (orth_take d shape pos flat) (ravel (map (@length nat) pos) ks)
     = Some (nth (ravel shape (pick pos ks)) flat d).
-Proof. intros. split; [apply orth_take_length|intros; apply orth_take_nth; assumption]. Qed.
+Proof. exact @orth_take_spec. Qed.
 Print Assumptions C06_subspace.
 
 (* ... it is the orthogonal selection of property C03 (nested arrays, one
